@@ -458,7 +458,23 @@ impl<'a> Builder<'a> {
                 }
             };
             let signed = Value::Object(doc);
-            let (sigs, abs_sigs) = self.sign_doc(&signed, &spec["sigs"]);
+            // "sigs_of": the signature list is copied byte for byte from another document (a document whose signed part
+            // was altered while its signatures were kept); such a signature is valid only if the contents are equal
+            let (sigs, abs_sigs) = if let Some(o) = spec["sigs_of"].as_str() {
+                let other = self.build(o);
+                let ov: Value = serde_json::from_slice(&other.bytes).expect("sigs_of a document that is not JSON");
+                let same = canon(&ov["signed"]) == canon(&signed);
+                let abs_list: Vec<Value> = list(&spec["sigs"])
+                    .iter()
+                    .map(|s| {
+                        let s = list(s);
+                        json!([n(&s[0]), n(&s[1]), if same && n(&s[2]) == 1 { 1 } else { 0 }])
+                    })
+                    .collect();
+                (ov["signatures"].clone(), Value::Array(abs_list))
+            } else {
+                self.sign_doc(&signed, &spec["sigs"])
+            };
             abs.push(abs_sigs);
             let mut envelope = Map::new();
             envelope.insert("signed".into(), signed);
